@@ -112,7 +112,7 @@ Definition al_ok (args : list aty) (al : Z) : bool :=
    block sizes positive, blk1/blk2 at most 16 bytes, blk3/blk4 9..16 bytes, case number 0..4 *)
 Definition wf_arg (a : aty) : bool :=
   match a with
-  | ABlk 0 s => 1 <=? s
+  | ABlk 0 s => 0 <=? s
   | ABlk 1 s | ABlk 2 s => (1 <=? s) && (s <=? 16)
   | ABlk 3 s | ABlk 4 s => (9 <=? s) && (s <=? 16)
   | ABlk _ _ => false
